@@ -316,6 +316,10 @@ def _auth_impl(cfg: Cfg, cache_in: dict, scripts, factor: int) -> str:
             if isinstance(e, (KeyboardInterrupt, SystemExit)):
                 raise
             verdict = 'RAISED:' + type(e).__name__
+        if cap.calls > RUN_TAPE_BUDGET * factor:
+            # the harness's own abort was raised somewhere inside (run_auth_scripts, or a TRY of the script, swallows it like any
+            # other exception): what the run returned is not an outcome of the scripts
+            verdict = 'RAISED:HarnessAbort'
         LAST['tapes'] = list(cap.datas)
         if cap.tops:
             _, st, ca = cap.tops[-1]
